@@ -49,6 +49,7 @@ pub fn all_fun_families(cfg: &FunCfg, sink: &mut FunSink) {
     fam_ctrl(cfg, sink);
     fam_codata(cfg, sink);
     fam_names(cfg, sink);
+    fam_arity(cfg, sink);
     if cfg.with_unsequenced {
         fam_effect(cfg, sink);
     }
@@ -216,6 +217,46 @@ pub fn fam_shadow(_cfg: &FunCfg, sink: &mut FunSink) {
                     };
                     FunCase { name: format!("shadow/label/{outer}/{inner}/v{variant}"), src: program(&[main_def(&["n"], print(true, body, lit(0)))]), inputs: inputs1(), sequenced: true }
                 });
+            }
+        }
+    }
+    // the same name bound again in a *sibling* scope (not shadowing: the inner binder is not in the
+    // scope of the outer one): bound term of a let, both operands, destructor argument, scrutinee.
+    // C ranges over non-branching and branching terms, D over the ways the inner name is used.
+    for name in ["x", "a", "x0", "a0"] {
+        for c in 0..5 {
+            for d in 0..4 {
+                for form in 0..6 {
+                    sink.offer(move || {
+                        let nm = name;
+                        let cs = match c {
+                            0 => "1".to_string(),
+                            1 => "if n == 0 { 1 } else { 2 }".to_string(),
+                            2 => "l.case[i64] { Nil => 0, Cons(h, t) => h }".to_string(),
+                            3 => "inc(n)".to_string(),
+                            _ => format!("l.case[i64] {{ Nil => 0, Cons({nm}, t) => {nm} + 3 }}"),
+                        };
+                        let ds = match d {
+                            0 => nm.to_string(),
+                            1 => format!("{nm} + 1"),
+                            2 => format!("inc({nm})"),
+                            _ => format!("if {nm} == 1 {{ {nm} }} else {{ n - {nm} }}"),
+                        };
+                        let inner = format!("(let {nm}: i64 = {cs}; {ds})");
+                        let body = match form {
+                            0 => format!("let {nm}: i64 = {inner}; {nm} * 10"),
+                            1 => format!("let {nm}: i64 = {inner}; n * 10"),
+                            2 => format!("{inner} + ({inner} * 100)"),
+                            3 => format!("(new {{ ap({nm}) => {nm} + 1000 }}).ap[i64, i64]{inner}"),
+                            4 => format!("(let {nm}: i64 = {cs}; Cons({ds}, l)).case[i64] {{ Nil => 0, Cons({nm}, t) => {nm} + sum(t) }}"),
+                            _ => format!("let r: i64 = {inner}; let {nm}: i64 = {inner}; r + ({nm} * 100)"),
+                        };
+                        let src = format!(
+                            "{PRELUDE_TYPES}{PRELUDE_DEFS}def f(n: i64, l: List[i64]): i64 {{ {body} }}\ndef main(n: i64, m: i64): i64 {{ println_i64(f(n, Cons(m, Cons(3, Nil)))); println_i64(f(m, Nil)); 0 }}\n"
+                        );
+                        FunCase { name: format!("shadow/reuse/{form}/c{c}/d{d}/{nm}"), src, inputs: vec![vec![0, 1], vec![5, 7], vec![1, 0]], sequenced: true }
+                    });
+                }
             }
         }
     }
@@ -513,6 +554,57 @@ pub fn fam_names(_cfg: &FunCfg, sink: &mut FunSink) {
             );
             FunCase { name: format!("names/type/{tn}"), src, inputs: vec![vec![0], vec![2]], sequenced: true }
         });
+    }
+}
+
+// ---- FUN-ARITY: every supported number of parameters of main, each parameter observable by position ----
+pub fn fam_arity(_cfg: &FunCfg, sink: &mut FunSink) {
+    for k in 0..=5usize {
+        for shape in 0..4 {
+            sink.offer(move || {
+                let ps: Vec<String> = (1..=k).map(|i| format!("p{i}")).collect();
+                let sig = ps.iter().map(|p| format!("{p}: i64")).collect::<Vec<_>>().join(", ");
+                let weighted = |names: &[String]| {
+                    let mut e = String::from("0");
+                    for (i, n) in names.iter().enumerate() {
+                        e = format!("({e}) + ({n} * {})", i + 2);
+                    }
+                    e
+                };
+                let body = match shape {
+                    0 => {
+                        let mut b = String::new();
+                        for p in &ps {
+                            b.push_str(&format!("println_i64({p}); "));
+                        }
+                        b.push('0');
+                        b
+                    }
+                    1 => format!("println_i64({}); 0", weighted(&ps)),
+                    2 => {
+                        // a helper with k + 2 parameters, called with the parameters reversed
+                        let mut args: Vec<String> = ps.iter().rev().cloned().collect();
+                        args.push("100".into());
+                        args.push("7".into());
+                        format!("println_i64(g({})); 0", args.join(", "))
+                    }
+                    _ => {
+                        // parameters captured by a closure and stored in a list, read back in order
+                        let mut l = String::from("Nil");
+                        for p in ps.iter().rev() {
+                            l = format!("Cons({p}, {l})");
+                        }
+                        format!("let f: Fun[i64, i64] = new {{ ap(q) => q + ({}) }}; println_i64(f.ap[i64, i64](1)); println_i64(sum({l})); {}", weighted(&ps), ps.last().cloned().unwrap_or("0".into()))
+                    }
+                };
+                let qs: Vec<String> = (1..=k + 2).map(|i| format!("q{i}")).collect();
+                let gsig = qs.iter().map(|p| format!("{p}: i64")).collect::<Vec<_>>().join(", ");
+                let src = format!("{PRELUDE_TYPES}{PRELUDE_DEFS}def g({gsig}): i64 {{ {} }}\ndef main({sig}): i64 {{ {body} }}\n", weighted(&qs));
+                let a: Vec<i64> = [11, 22, 33, 44, 55][..k].to_vec();
+                let b: Vec<i64> = [-1, 0, 1 << 40, 7, -9][..k].to_vec();
+                FunCase { name: format!("arity/k{k}/s{shape}"), src, inputs: if k == 0 { vec![vec![]] } else { vec![a, b] }, sequenced: true }
+            });
+        }
     }
 }
 
